@@ -18,3 +18,35 @@ Definition acceptor (acceptors : list (string * re)) (nm : string) (v : bytes) :
   end.
 Definition kw_shape_handler (acceptors : list (string * re)) (h : list string * list bytes) (v : bytes) : bool :=
   existsb (fun nm => acceptor acceptors nm v) (fst h) || kw_handler (snd h) v.
+
+(* ---- handlers whose body is a disjunction of conditions on the value ---- *)
+Inductive hcond :=
+| CRx (nm : string)               (* R.MatchString(value) *)
+| CCall (fn : string)             (* OtherHandler(value), defined earlier in the list *)
+| CIn (kw : list bytes)           (* in(splitValues(value), kw) *)
+| CInSpace (kw : list bytes).     (* in(strings.Split(value, " "), kw) *)
+
+Definition henv := list (string * (bytes -> bool)).
+Definition call_env (env : henv) (fn : string) (v : bytes) : bool :=
+  match find (fun e => String.eqb (fst e) fn) env with Some e => snd e v | None => false end.
+Definition eval_cond (acceptors : list (string * re)) (env : henv) (c : hcond) (v : bytes) : bool :=
+  match c with
+  | CRx nm => acceptor acceptors nm v
+  | CCall fn => call_env env fn v
+  | CIn kw => kw_handler kw v
+  | CInSpace kw => in_list (split v [32%N]) kw
+  end.
+Definition eval_def (acceptors : list (string * re)) (env : henv) (d : list hcond) (v : bytes) : bool :=
+  existsb (fun c => eval_cond acceptors env c v) d.
+Fixpoint build_handlers (acceptors : list (string * re)) (defs : list (string * list hcond)) (env : henv) : henv :=
+  match defs with
+  | [] => env
+  | (n, d) :: rest => build_handlers acceptors rest (env ++ [(n, eval_def acceptors env d)])
+  end.
+(* every call goes to a handler defined earlier: then the model's "not found = false" never applies *)
+Fixpoint calls_resolved (defs : list (string * list hcond)) (seen : list string) : bool :=
+  match defs with
+  | [] => true
+  | (n, d) :: rest =>
+    forallb (fun c => match c with CCall fn => existsb (String.eqb fn) seen | _ => true end) d && calls_resolved rest (n :: seen)
+  end.
